@@ -79,6 +79,38 @@ def Xs (mode : Mode) (cs : List (Comp α)) : List α := cs.map (X mode cs)
 /-- the `sum` row: `np.sum` of each column -/
 def sumRow (mode : Mode) (cs : List (Comp α)) : α × α := ((xs mode cs).sum, (Xs mode cs).sum)
 
+/-- `components=[…]`: only the selected component rows are listed (their values still refer to
+    the whole composite); `keep` marks the selected components in dict order -/
+def select {β : Type} : List Bool → List β → List β
+  | b :: bs, x :: xs => if b then x :: select bs xs else select bs xs
+  | _, _ => []
+
+/-- the `avg` row without weights: `np.average(column)` -/
+def avgPlain [NatCast α] (col : List α) : α := col.sum / (col.length : α)
+
+/-- the `avg` row of a NUMBER composite with `weight=True`:
+    `np.average(np.divide(column, weights), weights=weights)` -/
+def avgWeighted (col ws : List α) : α :=
+  (List.zipWith (fun c w => c / w * w) col ws).sum / ws.sum
+
+/-- the weights `_data` collects: the amounts of the listed components -/
+def weightsOf : Mode → List (Comp α) → List α
+  | .massFraction, cs => cs.map fun c => c.p / c.m
+  | _, cs => cs.map fun c => c.p
+
+/-- the `avg` row of `data_composite`: weighted only for `weight=True` and `Norm.NUMBER` -/
+def avgRow [NatCast α] (weighted : Bool) (mode : Mode) (cs : List (Comp α)) (keep : List Bool) : α × α :=
+  let cx := select keep (xs mode cs)
+  let cX := select keep (Xs mode cs)
+  if weighted && mode == .number then
+    let ws := select keep (weightsOf mode cs)
+    (avgWeighted cx ws, avgWeighted cX ws)
+  else (avgPlain cx, avgPlain cX)
+
+/-- the `sum` row over the listed components -/
+def sumRowSel (mode : Mode) (cs : List (Comp α)) (keep : List Bool) : α × α :=
+  ((select keep (xs mode cs)).sum, (select keep (Xs mode cs)).sum)
+
 /-! ## Specification -/
 
 /-- the amount `n_i` of a component: the proportion itself in the two number modes,
